@@ -470,6 +470,13 @@ func c07Check(c c07Case) *vResult {
 					res.violate("directory-verdict-not-final", "op %d: server %d answers; password kind %s for %s: accepted=%v, directory says %v (history %s)", i, answering, op.Pw, u, accepted, want, shape)
 					return res
 				}
+				if outage {
+					// the primary is unreachable: the confirmed hash cannot be stored
+					// and a rejected one cannot be evicted (both writes go to the
+					// primary only); the stores stay as they are
+					res.label("online-login-during-primary-outage")
+					continue
+				}
 				if want {
 					primary[u] = &c07Rec{exists: true, pw: pw, valid: true, left: 96 * time.Hour}
 				} else if r := read[u]; r.exists && r.valid && !r.unknown && r.pw == pw {
